@@ -6,7 +6,7 @@ use crate::rng::Rng;
 fn ws1(r: &mut Rng) -> String {
     // at least one white space character
     let n = 1 + r.below(3);
-    (0..n).map(|_| *r.pick(&[" ", " ", "\t", "\n", "\r\n", "\r", "\n:", "\u{a0}", "\u{2003}", " \n: "])).collect::<Vec<_>>().join("")
+    (0..n).map(|_| *r.pick(&[" ", " ", "\t", "\n", "\r\n", "\r", "\n:", "\r:", "\r\n:", "\u{a0}", "\u{2003}", " \n: "])).collect::<Vec<_>>().join("")
 }
 fn ws0(r: &mut Rng) -> String {
     if r.chance(1, 2) {
@@ -78,7 +78,8 @@ pub fn noisy_layout(r: &mut Rng, steps: &[StepSpec], comments: bool) -> (String,
             out += w;
         }
         if comments && r.chance(1, 4) {
-            out += &format!(" # comment {} | not a step = 1\n", i);
+            // a comment runs to the end of its line, however the line ends
+            out += &format!(" # comment {} | not a step = 1{}", i, r.pick(&["\n", "\n", "\r\n", "\r"]));
         }
         // empty steps are insignificant
         if r.chance(1, 10) {
@@ -86,7 +87,7 @@ pub fn noisy_layout(r: &mut Rng, steps: &[StepSpec], comments: bool) -> (String,
         }
     }
     if comments && r.chance(1, 4) {
-        out = format!("# leading comment\n{out}");
+        out = format!("# leading comment{}{out}", r.pick(&["\n", "\r\n", "\r"]));
     }
     if !out.contains('|') && !out.contains('<') && !out.contains('>') {
         out += " |";
@@ -210,6 +211,14 @@ pub fn generate(g: &mut Gen, thorough: bool) {
                 }
             }
         }
+    }
+    // a series with an unparsable or empty element is refused as a whole
+    for def in [
+        "helmert translation=1,2,x,3", "helmert translation=1,2,,3", "helmert translation=,1,2,3", "helmert translation=1,2,3,", "helmert rotation=1,q,3 convention=position_vector",
+        "stack push=1,,2", "stack push=1,x", "axisswap order=2,1,q", "axisswap order=2,,1", "stack roll=2,", "helmert translation=1;2;3", "helmert translation=1,2,3x",
+    ] {
+        g.push(format!("S_C16E\t{}", crate::wire::escape(def)), "oracle-bad-series", true);
+        g.push(super::op_line("default", &[], &[], def, "tree", "F", ""), "typed-bad-series", true);
     }
     for def in ["probe", "probe real=1 real=2", "probe natural=1 natural=x", "probe unknown=5 other", "probe real=2 unknown=$real", "probe flag flag=false"] {
         g.push(super::op_line("default", &[], &[("probe".to_string(), "u:probe".to_string())], def, "tree", "F", ""), "typed-misc", true);
